@@ -260,8 +260,9 @@ Lemma tail_step : forall mir o c nest sv B ss, tail_cmd c = true -> small B -> i
   let sv' := push_all (handle fx nest sv o c) in
   pend_ok sv' /\ inv B sv' /\ (forall q, V mir sv' o q = V mir sv o q)
   /\ (forall q, own_node ss q = false -> data_at (sv_tree sv') q = data_at (sv_tree sv) q)
-  /\ exists ss', get_session sv' o = Some ss' /\ session_dir ss' = session_dir ss
-                 /\ forall x, In x (all_entries (s_subs ss')) -> In x (all_entries (s_subs ss)).
+  /\ (exists ss', get_session sv' o = Some ss' /\ session_dir ss' = session_dir ss
+                  /\ forall x, In x (all_entries (s_subs ss')) -> In x (all_entries (s_subs ss)))
+  /\ settled sv'.
 Proof.
   intros mir o c nest sv B ss Ht HB I Hpo Hss sv'.
   assert (Hdep : nest + cmd_depth c <= max_batch_nest \/ True) by now right.
@@ -315,6 +316,7 @@ Proof.
   split; [intros q; unfold sv'; now rewrite V_push_all|].
   split; [intros q Hq; unfold sv'; destruct (push_all_core (handle fx nest sv o c)) as [Htr _]; rewrite Htr; now apply Hd1|].
   destruct (get_session_sess_fwd _ sv' o ss1 (same_core_sess _ _ (push_all_core _)) Ha) as [ss2 [Hd [He Hf]]].
+  split; [|now apply settled_push_all].
   exists ss2. split; [exact Hd|split; [congruence|]]. intros x Hx. apply Hc. now rewrite <- He.
 Qed.
 
@@ -323,15 +325,16 @@ Lemma tail_fold : forall mir o l2 nest sv B ss, forallb tail_cmd l2 = true -> sm
   let sv' := fold_left (fun s' c => push_all (handle fx nest s' o c)) l2 sv in
   pend_ok sv' /\ inv B sv' /\ (forall q, V mir sv' o q = V mir sv o q)
   /\ (forall q, own_node ss q = false -> data_at (sv_tree sv') q = data_at (sv_tree sv) q)
-  /\ exists ss', get_session sv' o = Some ss' /\ session_dir ss' = session_dir ss
-                 /\ forall x, In x (all_entries (s_subs ss')) -> In x (all_entries (s_subs ss)).
+  /\ (exists ss', get_session sv' o = Some ss' /\ session_dir ss' = session_dir ss
+                  /\ forall x, In x (all_entries (s_subs ss')) -> In x (all_entries (s_subs ss)))
+  /\ (settled sv -> settled sv').
 Proof.
   intros mir o. induction l2 as [|c l2 IH]; intros nest sv B ss Ht HB I Hpo Hss; cbn [fold_left].
-  - split; [auto|split; [auto|split; [auto|split; [auto|]]]]. exists ss. auto.
+  - split; [auto|split; [auto|split; [auto|split; [auto|split; [|auto]]]]]. exists ss. auto.
   - cbn [forallb] in Ht. apply andb_true_iff in Ht as [Ht1 Ht2].
-    destruct (tail_step mir o c nest sv B ss Ht1 HB I Hpo Hss) as [Hp1 [I1 [HV1 [Hd1 [ss1 [Ha [Hb Hc]]]]]]].
-    destruct (IH nest _ B ss1 Ht2 HB I1 Hp1 Ha) as [Hp2 [I2 [HV2 [Hd2 [ss2 [Hd [He Hf]]]]]]].
-    split; [exact Hp2|split; [exact I2|split; [intros q; now rewrite HV2|split]]].
+    destruct (tail_step mir o c nest sv B ss Ht1 HB I Hpo Hss) as [Hp1 [I1 [HV1 [Hd1 [[ss1 [Ha [Hb Hc]]] Hset1]]]]].
+    destruct (IH nest _ B ss1 Ht2 HB I1 Hp1 Ha) as [Hp2 [I2 [HV2 [Hd2 [[ss2 [Hd [He Hf]]] Hset2]]]]].
+    split; [exact Hp2|split; [exact I2|split; [intros q; now rewrite HV2|split; [|split; [|auto]]]]].
     + intros q Hq. rewrite Hd2; [now apply Hd1|]. now rewrite (own_node_dir ss1 ss q Hb).
     + exists ss2. split; [exact Hd|split; [congruence|auto]].
 Qed.
@@ -419,7 +422,7 @@ Proof.
   destruct (handle_track fx (CBatch l1) 0 sv0 o Hpo0) as [_ Htr]; [cbn [Nat.add]; lia|]. fold svm in Htr.
   destruct (Htr o ss0 Hss0) as [ssm [Hssm [Hdirm _]]].
   destruct (tail_fold mir o l2 1 svm (B + cmd_budget (CBatch l1)) ssm Htl HB1 Im Hpom Hssm)
-    as [Hpoe [Ie [HVe [Hde [sse [Hsse [Hdire Hsube]]]]]]].
+    as [Hpoe [Ie [HVe [Hde [[sse [Hsse [Hdire Hsube]]] _]]]]].
   set (sve := fold_left (fun s' c => push_all (handle fx 1 s' o c)) l2 svm) in *.
   assert (Hset : settled (push_all sve)) by (now apply settled_push_all).
   destruct (get_session_sess sve (push_all sve) o ss1 (same_core_sess _ _ (push_all_core sve)) Hss1) as [sse' [Hsse' [Hsub1 Hdir1]]].
@@ -430,6 +433,248 @@ Proof.
   - intros q. now rewrite V_push_all.
   - intros q Hown. destruct (push_all_core sve) as [Ht _]. rewrite Ht. now apply Hde.
   - intros x Hx. apply Hsube. now rewrite Hsub1.
+Qed.
+
+(* ------------------------------------------------------------------ unsubscribes at the head of a BATCH of the observer *)
+
+(* at a path, the Messages queued for a session either decide what the client will hold, whatever it holds now, or they
+   say nothing about it *)
+Lemma apply_all_shape : forall ds q,
+  (exists r, forall m, mirror_get (apply_all m ds) q = r) \/ (forall m, mirror_get (apply_all m ds) q = mirror_get m q).
+Proof.
+  induction ds as [|d ds IH]; intros q; [right; intros m; reflexivity|].
+  destruct (IH q) as [[r Hr]|Hf].
+  - left. exists r. intros m. unfold apply_all in *. cbn [fold_left]. apply Hr.
+  - destruct (di_lookup d q) as [r|] eqn:E.
+    + left. exists r. intros m. unfold apply_all in *. cbn [fold_left]. rewrite Hf, apply_di_get, E. reflexivity.
+    + right. intros m. unfold apply_all in *. cbn [fold_left]. rewrite Hf, apply_di_get, E. reflexivity.
+Qed.
+
+Lemma V_quiet : forall m sv o ss q, quiet sv -> get_session sv o = Some ss -> V m sv o q = Some (mirror_get m q).
+Proof.
+  intros m sv o ss q Hq Hss. assert (Hin : In ss (sv_sessions sv)) by (apply find_session_some in Hss; tauto).
+  destruct (proj2 Hq ss Hin) as [Hnp Hout]. rewrite (V_settled m sv o ss q Hss Hnp), Hout. reflexivity.
+Qed.
+
+Lemma subscribe_one_data : forall sv b sf q, data_at (sv_tree (subscribe_one fx sv b sf)) q = data_at (sv_tree sv) q.
+Proof.
+  intros sv b [sp f] q. unfold subscribe_one. cbn [fst snd].
+  destruct (get_session sv b) as [bs|]; [|reflexivity].
+  destruct (fix_path sp) as [|c fp'] eqn:Efp; [reflexivity|]. rewrite <- Efp.
+  destruct (m_get (s_subs bs) (fix_path sp)) as [e|].
+  - cbn [sv_tree upd_session].
+    match goal with |- data_at (sv_tree ?X) q = _ => assert (Ht : sv_tree X = sv_tree sv) end.
+    { destruct f, (e_flt e); try reflexivity; exact (proj1 (cqf_traversal_core fx _ _ _ _ _ _ _ _ sv)). }
+    now rewrite Ht.
+  - cbn [sv_tree set_tree upd_session]. apply data_at_mark_gen.
+Qed.
+
+(* a session's own commands leave the payloads outside its own nodes alone *)
+Lemma handle_data_foreign : forall o c nest sv ss, pend_ok sv -> get_session sv o = Some ss ->
+  nest + cmd_depth c <= max_batch_nest ->
+  forall q, own_node ss q = false -> data_at (sv_tree (handle fx nest sv o c)) q = data_at (sv_tree sv) q.
+Proof.
+  intros o. induction c using cmd_ind'; intros nest sv ss Hpo Hss Hdep qp Hown; cbn [handle]; rewrite Hss.
+  - destruct (own_set_data_items [] o i sv f (session_dir ss) Hpo) as [_ Hd]; [intros x Hx; congruence|].
+    apply Hd. destruct (is_prefix (session_dir ss) qp) eqn:E; auto. apply own_node_of_prefix in E. congruence.
+  - pose proof (find_session_some _ _ _ Hss) as [_ Hid].
+    destruct (own_do_remove_data fx [] o sv ss k q Hpo Hid) as [_ Hd].
+    apply Hd. destruct (is_prefix (session_dir ss) qp) eqn:E; auto. apply own_node_of_prefix in E. congruence.
+  - assert (Hf : forall subs sv0, data_at (sv_tree (fold_left (fun sv' sf => subscribe_one fx sv' o sf) subs sv0)) qp = data_at (sv_tree sv0) qp).
+    { induction subs as [|sf subs IH]; intros sv0; cbn [fold_left]; [reflexivity|]. rewrite IH. apply subscribe_one_data. }
+    destruct q; [apply Hf|]. destruct k as [|sf0 k0]; [reflexivity|].
+    destruct (do_get_data_core fx (if fx_push fx then push_all (fold_left (fun sv' sf => subscribe_one fx sv' o sf) (sf0 :: k0) sv)
+                                   else fold_left (fun sv' sf => subscribe_one fx sv' o sf) (sf0 :: k0) sv) o (sf0 :: k0)) as [Ht _].
+    rewrite Ht. destruct (fx_push fx); [destruct (push_all_core (fold_left (fun sv' sf => subscribe_one fx sv' o sf) (sf0 :: k0) sv)) as [Ht' _]; rewrite Ht'|]; apply Hf.
+  - destruct (unsub_fold_V [] k sv o) as [_ Hd]. apply Hd.
+  - reflexivity.
+  - reflexivity.
+  - destruct (do_get_data_core fx sv o k) as [Ht _]. now rewrite Ht.
+  - cbn [cmd_depth] in Hdep.
+    assert (Hlt : Nat.ltb nest max_batch_nest = true) by (apply Nat.ltb_lt; lia). rewrite Hlt.
+    clear Hlt. revert sv ss Hpo Hss Hdep Hown.
+    induction H as [|c l Hc Hl IHl]; intros sv ss Hpo Hss Hdep Hown; [reflexivity|].
+    destruct (handle_track fx c (S nest) sv o Hpo) as [Hpo1 Htr]; [lia|].
+    destruct (Htr o ss Hss) as [ss1 [Hss1 [Hdir1 _]]].
+    set (sv1 := push_all (handle fx (S nest) sv o c)).
+    destruct (get_session_sess_fwd _ sv1 o ss1 (same_core_sess _ _ (push_all_core _)) Hss1) as [ss2 [Hss2 [_ Hdir2]]].
+    rewrite (IHl sv1 ss2); auto.
+    + unfold sv1. destruct (push_all_core (handle fx (S nest) sv o c)) as [Ht _]. rewrite Ht. apply (Hc (S nest) sv ss); auto. lia.
+    + now apply pend_ok_push_all.
+    + lia.
+    + rewrite <- Hown. apply own_node_dir. congruence.
+Qed.
+
+Lemma batch_depth_app_r : forall l1 l2, cmd_depth (CBatch l2) <= cmd_depth (CBatch (l1 ++ l2)).
+Proof.
+  intros l1 l2. cbn [cmd_depth]. apply le_n_S. induction l1 as [|c l1 IH]; cbn [app]; [lia|]. lia.
+Qed.
+
+Lemma batch_subs_ok_app_r : forall l1 l2, cmd_subs_ok (CBatch (l1 ++ l2)) -> cmd_subs_ok (CBatch l2).
+Proof.
+  intros l1 l2. cbn [cmd_subs_ok]. induction l1 as [|c l1 IH]; cbn [app]; [auto|]. intros [H1 H2]. now apply IH.
+Qed.
+
+Lemma tail_budget : forall l, forallb tail_cmd l = true -> cmd_budget (CBatch l) = 0.
+Proof.
+  intros l. cbn [cmd_budget]. induction l as [|c l IH]; intros H; [reflexivity|]. cbn [forallb] in H.
+  apply andb_true_iff in H as [H1 H2]. rewrite (IH H2). destruct c; try discriminate; reflexivity.
+Qed.
+
+Lemma tail_depth : forall l, forallb tail_cmd l = true -> cmd_depth (CBatch l) = 1.
+Proof.
+  intros l. cbn [cmd_depth]. intros H. f_equal. induction l as [|c l IH]; [reflexivity|]. cbn [forallb] in H.
+  apply andb_true_iff in H as [H1 H2]. rewrite (IH H2). destruct c; try discriminate; reflexivity.
+Qed.
+
+(* pruning with fewer subscriptions what was exact for more *)
+Lemma prune_math : forall (S0 S1 : matcher) q d0, wf_groups (m_groups S0) -> wf_groups (m_groups S1) ->
+  (forall x, In x (all_entries S1) -> In x (all_entries S0)) ->
+  match exp_with S0 q d0 with
+  | Some v => if matches_path S1 q (Some v) then Some v else None
+  | None => None
+  end = exp_with S1 q d0.
+Proof.
+  intros S0 S1 q d0 H0 H1 Hsub. destruct d0 as [v|]; [|reflexivity]. unfold exp_with.
+  destruct (matches_path S0 q (Some v)) eqn:E0; [reflexivity|].
+  destruct (matches_path S1 q (Some v)) eqn:E1; auto.
+  apply matches_path_spec in E1 as [e [He [Ha Hb]]]; auto.
+  assert (matches_path S0 q (Some v) = true); [|congruence].
+  apply matches_path_spec; auto. exists e. auto.
+Qed.
+
+Lemma V_cleared : forall X sv o ss q, settled sv -> get_session sv o = Some ss ->
+  V X (clear_outs sv) o q = Some (mirror_get X q).
+Proof.
+  intros X sv o ss q Hset Hss. assert (Hin : In ss (sv_sessions sv)) by (apply find_session_some in Hss; tauto).
+  unfold V. rewrite get_session_clear, Hss. cbn [option_map]. unfold vm. cbn [clear_out s_out s_pending].
+  rewrite (proj2 Hset ss Hin). reflexivity.
+Qed.
+
+(* a BATCH of the observer: unsubscribes (and other tail commands) first, then commands without unsubscribe, then tail
+   commands again; the client prunes once, after the whole BATCH *)
+Lemma batch_general_world_J : forall B mir sv0 o ss0 l0 l1 l2,
+  small (B + cmd_budget (CBatch (l0 ++ l1 ++ l2))) -> inv B sv0 -> quiet sv0 ->
+  get_session sv0 o = Some ss0 -> mirror_ok mir -> J mir sv0 o ->
+  cmd_loud_for true (CBatch (l0 ++ l1 ++ l2)) = true -> cmd_depth (CBatch (l0 ++ l1 ++ l2)) <= max_batch_nest ->
+  cmd_subs_ok (CBatch (l0 ++ l1 ++ l2)) ->
+  forallb tail_cmd l0 = true -> forallb cmd_nounsub l1 = true -> forallb tail_cmd l2 = true ->
+  cmd_covered (fst (client_cmd (s_subs ss0) (CBatch l0))) (CBatch l1) ->
+  let sv1 := push_all (handle fx 0 sv0 o (CBatch (l0 ++ l1 ++ l2))) in
+  forall ss1, get_session sv1 o = Some ss1 ->
+  J (filter (fun pv => matches_path (s_subs ss1) (fst pv) (Some (snd pv))) (apply_all mir (s_out ss1))) (clear_outs sv1) o.
+Proof.
+  intros B mir sv0 o ss0 l0 l1 l2 HB I Hq Hss0 Hmok HJ Hloud Hdep Hsok Ht0 Hnu Ht2 Hcov sv1 ss1 Hss1.
+  pose proof (quiet_settled sv0 Hq) as Hset0. pose proof (quiet_pend_ok sv0 Hset0) as Hpo0.
+  assert (Hlt : Nat.ltb 0 max_batch_nest = true) by (apply Nat.ltb_lt; cbn [cmd_depth] in Hdep; lia).
+  assert (Hmax : 1 <= max_batch_nest) by (apply Nat.ltb_lt in Hlt; lia).
+  unfold sv1 in *. clear sv1.
+  rewrite (handle_batch_fold (l0 ++ l1 ++ l2) 0 sv0 o ss0 Hss0 Hlt), !fold_left_app in *.
+  set (step := fun (s' : server) (c : cmd) => push_all (handle fx 1 s' o c)) in *.
+  set (sva := fold_left step l0 sv0) in *.
+  assert (HB0 : small B) by (eapply small_le; [|exact HB]; lia).
+  (* ---- the head: tail commands from the quiet state *)
+  destruct (tail_fold mir o l0 1 sv0 B ss0 Ht0 HB0 I Hpo0 Hss0) as [Hpoa [Ia [_ [Hda [[ssa [Hssa [Hdira Hsuba]]] Hseta]]]]].
+  fold step in Hpoa, Ia, Hda, Hssa, Hseta. fold sva in Hpoa, Ia, Hda, Hssa, Hseta.
+  specialize (Hseta Hset0).
+  assert (HVa : forall m q, V m sva o q = Some (mirror_get m q)).
+  { intros m q. destruct (tail_fold m o l0 1 sv0 B ss0 Ht0 HB0 I Hpo0 Hss0) as [_ [_ [HV _]]].
+    fold step in HV. fold sva in HV. rewrite HV. now apply (V_quiet m sv0 o ss0). }
+  (* the subscriptions after the head, as the client computes them *)
+  assert (Hsa : s_subs ssa = fst (client_cmd (s_subs ss0) (CBatch l0))).
+  { destruct (handle_track fx (CBatch l0) 0 sv0 o Hpo0) as [_ Htr]; [rewrite (tail_depth l0 Ht0); cbn [Nat.add]; lia|].
+    rewrite (handle_batch_fold l0 0 sv0 o ss0 Hss0 Hlt) in Htr. fold step in Htr. fold sva in Htr.
+    destruct (Htr o ss0 Hss0) as [x [Hx [_ Hy]]]. rewrite N.eqb_refl in Hy. congruence. }
+  assert (Hina : In ssa (sv_sessions sva)) by (apply find_session_some in Hssa; tauto).
+  destruct (inv_subs _ _ _ Ia ssa Hina) as [[Hwa _] _].
+  assert (Hin0 : In ss0 (sv_sessions sv0)) by (apply find_session_some in Hss0; tauto).
+  destruct (inv_subs _ _ _ I ss0 Hin0) as [[Hw0 _] _].
+  (* ---- the ghost mirror: what the client would hold had it pruned right after the head *)
+  set (m := filter (fun pv => matches_path (s_subs ssa) (fst pv) (Some (snd pv))) mir).
+  assert (Hmokm : mirror_ok m) by (now apply filter_ok_mirror).
+  assert (Hm0 : forall q, own_node ss0 q = false -> mirror_get mir q = expected (sv_tree sv0) ss0 q).
+  { intros q Hown. pose proof (HJ ss0 Hss0 q Hown) as H. rewrite (V_quiet mir sv0 o ss0 q Hq Hss0) in H. now inversion H. }
+  assert (HJa : J m sva o).
+  { intros ss Hss q Hown. assert (ss = ssa) by congruence. subst ss.
+    assert (Hown0 : own_node ss0 q = false) by (rewrite <- Hown; apply own_node_dir; congruence).
+    rewrite HVa. f_equal. unfold m. rewrite mirror_get_filter by exact Hmok. cbn [fst snd].
+    rewrite (Hm0 q Hown0), !expected_exp_with.
+    fold (data_at (sv_tree sv0) q). fold (data_at (sv_tree sva) q). rewrite (Hda q Hown0).
+    now apply prune_math. }
+  (* ---- the middle: commands without unsubscribe, with the ghost mirror *)
+  assert (Hb3 : cmd_budget (CBatch (l0 ++ l1 ++ l2)) = cmd_budget (CBatch l1)).
+  { rewrite !batch_budget_app, (tail_budget l0 Ht0), (tail_budget l2 Ht2). lia. }
+  assert (HB1 : small (B + cmd_budget (CBatch l1))) by (now rewrite <- Hb3).
+  assert (Hd1 : cmd_depth (CBatch l1) <= max_batch_nest).
+  { pose proof (batch_depth_app_r l0 (l1 ++ l2)). pose proof (batch_depth_app_l l1 l2). lia. }
+  assert (Hl1 : cmd_loud_for true (CBatch l1) = true).
+  { cbn [cmd_loud_for] in *. rewrite !forallb_app in Hloud. apply andb_true_iff in Hloud as [_ H1].
+    now apply andb_true_iff in H1 as [H1 _]. }
+  assert (Hs1 : cmd_subs_ok (CBatch l1)).
+  { apply (batch_subs_ok_app_l l1 l2). now apply (batch_subs_ok_app_r l0 (l1 ++ l2)). }
+  set (svb := fold_left step l1 sva) in *.
+  assert (Esvb : svb = handle fx 0 sva o (CBatch l1)) by (now rewrite (handle_batch_fold l1 0 sva o ssa Hssa Hlt)).
+  destruct (handle_J fx guard_on overlap_on push_on m o (CBatch l1) 0 sva o B) as [HJb Hpob]; auto.
+  { left. now rewrite N.eqb_refl. }
+  { intros _. split; [exact Hnu|split; [exact Hs1|]].
+    intros ss Hss. assert (ss = ssa) by congruence. subst ss. split; [apply (proj2 Hseta ssa Hina)|now rewrite Hsa]. }
+  rewrite <- Esvb in HJb, Hpob.
+  assert (Ib : inv (B + cmd_budget (CBatch l1)) svb) by (rewrite Esvb; now apply handle_inv).
+  destruct (handle_track fx (CBatch l1) 0 sva o Hpoa) as [_ Htrb]; [cbn [Nat.add]; exact Hd1|]. rewrite <- Esvb in Htrb.
+  destruct (Htrb o ssa Hssa) as [ssb [Hssb [Hdirb _]]].
+  assert (Hdb : forall q, own_node ssa q = false -> data_at (sv_tree svb) q = data_at (sv_tree sva) q).
+  { intros q Hown. rewrite Esvb. apply (handle_data_foreign o (CBatch l1) 0 sva ssa); auto. }
+  (* ---- the tail *)
+  destruct (tail_fold m o l2 1 svb (B + cmd_budget (CBatch l1)) ssb Ht2 HB1 Ib Hpob Hssb)
+    as [Hpoe [Ie [HVe [Hde [[sse [Hsse [Hdire Hsube]]] _]]]]].
+  fold step in Hpoe, Ie, HVe, Hde, Hsse. set (sve := fold_left step l2 svb) in *.
+  assert (Hset1 : settled (push_all sve)) by (now apply settled_push_all).
+  destruct (get_session_sess sve (push_all sve) o ss1 (same_core_sess _ _ (push_all_core sve)) Hss1) as [sse' [Hsse' [Hsub1 Hdir1]]].
+  assert (sse' = sse) by congruence. subst sse'.
+  assert (I1 : inv (B + cmd_budget (CBatch l1)) (push_all sve)) by (eapply inv_same_core; [apply push_all_core|exact Ie]).
+  (* the ghost client is exact after its final pruning *)
+  assert (Hghost : J (filter (fun pv => matches_path (s_subs ss1) (fst pv) (Some (snd pv))) (apply_all m (s_out ss1)))
+                     (clear_outs (push_all sve)) o).
+  { apply (prune_J (B + cmd_budget (CBatch l1)) (B + cmd_budget (CBatch l1)) m svb (push_all sve) o ssb ss1); auto.
+    - congruence.
+    - intros q. now rewrite V_push_all.
+    - intros q Hown. destruct (push_all_core sve) as [Ht _]. rewrite Ht. now apply Hde.
+    - intros x Hx. apply Hsube. now rewrite Hsub1. }
+  (* ---- the real client holds the same, path by path *)
+  assert (Hin1 : In ss1 (sv_sessions (push_all sve))) by (apply find_session_some in Hss1; tauto).
+  destruct (inv_subs _ _ _ I1 ss1 Hin1) as [[Hw1 _] _].
+  intros ss' Hss' q Hown.
+  pose proof (Hghost ss' Hss' q Hown) as Hg.
+  rewrite (V_cleared (filter (fun pv => matches_path (s_subs ss1) (fst pv) (Some (snd pv))) (apply_all m (s_out ss1)))
+             (push_all sve) o ss1 q Hset1 Hss1) in Hg.
+  rewrite (V_cleared (filter (fun pv => matches_path (s_subs ss1) (fst pv) (Some (snd pv))) (apply_all mir (s_out ss1)))
+             (push_all sve) o ss1 q Hset1 Hss1).
+  rewrite <- Hg. f_equal.
+  rewrite get_session_clear, Hss1 in Hss'. cbn in Hss'. inversion Hss'; subst ss'. clear Hss'.
+  rewrite !mirror_get_filter by (now apply apply_all_ok). cbn [fst snd].
+  destruct (apply_all_shape (s_out ss1) q) as [[r Hr]|Hf]; [now rewrite !Hr|].
+  rewrite !Hf. unfold m at 1. rewrite mirror_get_filter by exact Hmok. cbn [fst snd].
+  destruct (mirror_get mir q) as [v|] eqn:Emq; [|reflexivity].
+  destruct (matches_path (s_subs ssa) q (Some v)) eqn:Ea; [reflexivity|].
+  (* held since before the BATCH, dropped by the head's unsubscribe: its payload is still the node's, and the final
+     subscriptions do not select it, or the ghost would hold it *)
+  assert (Hown1 : own_node ss1 q = false).
+  { rewrite <- Hown. apply own_node_dir. unfold session_dir. reflexivity. }
+  assert (Hownb : own_node ssb q = false) by (rewrite <- Hown1; apply own_node_dir; congruence).
+  assert (Howna : own_node ssa q = false) by (rewrite <- Hownb; apply own_node_dir; congruence).
+  assert (Hown0 : own_node ss0 q = false) by (rewrite <- Howna; apply own_node_dir; congruence).
+  assert (Hd0 : data_at (sv_tree sv0) q = Some v).
+  { pose proof (Hm0 q Hown0) as H. rewrite Emq, expected_exp_with in H. fold (data_at (sv_tree sv0) q) in H.
+    destruct (data_at (sv_tree sv0) q) as [v'|]; [|discriminate]. unfold exp_with in H.
+    destruct (matches_path (s_subs ss0) q (Some v')); congruence. }
+  assert (Hd1' : data_at (sv_tree (push_all sve)) q = Some v).
+  { destruct (push_all_core sve) as [Ht _]. rewrite Ht, (Hde q Hownb), (Hdb q Howna), (Hda q Hown0). exact Hd0. }
+  (* the ghost holds nothing at q *)
+  rewrite !mirror_get_filter in Hg by (now apply apply_all_ok). cbn [fst snd] in Hg. rewrite Hf in Hg.
+  unfold m in Hg at 1. rewrite mirror_get_filter in Hg by exact Hmok. cbn [fst snd] in Hg. rewrite Emq, Ea in Hg.
+  rewrite expected_exp_with in Hg. cbn [clear_outs sv_tree clear_out s_subs] in Hg.
+  fold (data_at (sv_tree (push_all sve)) q) in Hg. rewrite Hd1' in Hg. unfold exp_with in Hg.
+  destruct (matches_path (s_subs ss1) q (Some v)); [inversion Hg|reflexivity].
 Qed.
 
 (* ------------------------------------------------------------------ the world invariant *)
@@ -496,16 +741,19 @@ Definition ev_ok (o : sid) (w : world) (ev : event) : Prop :=
 (* what the observer itself may send in the state [w]: well-formed SUBSCRIBE: field lists, and
    - a command without unsubscribe whose explicit GETDATA keys are subscriptions it holds at that moment, or
    - an unsubscribe as a Message of its own, or
-   - a BATCH of such commands followed by unsubscribes (and own SETDATA / REMOVEDATA / max-items): once it has
-     unsubscribed inside a BATCH it subscribes / fetches no more in that BATCH *)
+   - a BATCH with an unsubscribe of the shape  head ++ middle ++ tail : head and tail hold unsubscribes (and own SETDATA /
+     REMOVEDATA / max-items changes) only, the middle no unsubscribe (its GETDATA keys are subscriptions held after the
+     head).  So "unsubscribe the old, subscribe the new" and "subscribe the new, unsubscribe the old" are both fine; what is
+     left out is a SUBSCRIBE: / GETDATA between two unsubscribes of one BATCH *)
 Definition ev_clean (o : sid) (w : world) (ev : event) : Prop :=
   match ev with
   | ECmd b c => b = o -> cmd_subs_ok c /\
                 ((cmd_nounsub c = true /\ forall ss, get_session (w_srv w) o = Some ss -> cmd_covered (s_subs ss) c)
                  \/ (exists subs, c = CUnsubscribe subs)
-                 \/ (exists l1 l2, c = CBatch (l1 ++ l2) /\ snd (client_cmd empty_matcher c) = true /\
-                                   forallb cmd_nounsub l1 = true /\ forallb tail_cmd l2 = true /\
-                                   forall ss, get_session (w_srv w) o = Some ss -> cmd_covered (s_subs ss) (CBatch l1)))
+                 \/ (exists l0 l1 l2, c = CBatch (l0 ++ l1 ++ l2) /\ snd (client_cmd empty_matcher c) = true /\
+                        forallb tail_cmd l0 = true /\ forallb cmd_nounsub l1 = true /\ forallb tail_cmd l2 = true /\
+                        forall ss, get_session (w_srv w) o = Some ss ->
+                                   cmd_covered (fst (client_cmd (s_subs ss) (CBatch l0))) (CBatch l1)))
   | _ => True
   end.
 
@@ -696,7 +944,7 @@ Proof.
       destruct (N.eqb (c_id c) b) eqn:Eb.
       * (* the observer's own command: it must be its unsubscribe *)
         apply N.eqb_eq in Eb. assert (Ebo : b = o) by congruence.
-        destruct (Hclean Ebo) as [Hsok [Hpl|[[subs Hun]|[l1 [l2 [Hun [_ [Hnu [Htl Hcov]]]]]]]]].
+        destruct (Hclean Ebo) as [Hsok [Hpl|[[subs Hun]|[l0 [l1 [l2 [Hun [_ [Ht0 [Hnu [Htl Hcov]]]]]]]]]]].
         { rewrite (nounsub_no_unsub c0 empty_matcher (proj1 Hpl)) in Hflag. discriminate. }
         { subst c0. destruct (Hhas1 c H6) as [ss1 [Hss1 Hsub1]].
           destruct (Hhas c H6) as [ss0 [Hss0 Hsub0]].
@@ -708,7 +956,7 @@ Proof.
         destruct (Hhas c H6) as [ss0 [Hss0 Hsub0]].
         unfold prune, deliver. rewrite Hupd_id, Hss1. cbn [c_mirror c_subs c_id]. rewrite Hupd_mir, Hsub1.
         rewrite Hid in Hss0, Hss1. unfold sv1, hd in *. rewrite Ebo in *.
-        apply (batch_tail_world_J B (c_mirror c) (w_srv w) o ss0 l1 l2); auto; try (apply HJ; auto).
+        apply (batch_general_world_J B (c_mirror c) (w_srv w) o ss0 l0 l1 l2); auto; try (apply HJ; auto).
         destruct Hloud as [Hl|[Hne _]]; [|congruence]. now rewrite N.eqb_refl in Hl.
       * (* somebody else's client is pruned, not this one *)
         apply N.eqb_neq in Eb.
@@ -718,7 +966,7 @@ Proof.
   - split; [exact HW1|].
     apply finish_wJ; auto. intros c' Hc' Hid. apply in_map_iff in Hc' as [c [H1 H2]]. subst c'.
     rewrite Hupd_id in Hid. rewrite Hupd_mir. apply HJ1; auto.
-    intros E. destruct (Hclean E) as [_ [Hpl|[[subs Hun]|[l1 [l2 [Hun [Hfl _]]]]]]]; auto.
+    intros E. destruct (Hclean E) as [_ [Hpl|[[subs Hun]|[l0 [l1 [l2 [Hun [Hfl _]]]]]]]]; auto.
     + subst c0. cbn in Hflag. discriminate.
     + congruence.
 Qed.
